@@ -104,8 +104,14 @@ func c02enc(c *Ctx, mc MsgCase, numericOnly bool) {
 		mkViol := func(what string) func(val func(*Term) uint64) *Violation {
 			return func(val func(*Term) uint64) *Violation {
 				want := hexOf(evalBytes(refB, val))
+				j := Judge{Kind: "buf_ne", Step: 2, ExpectHex: want}
+				if fi := c.frameInfo(mc.Mod, mc.Typ); fi != nil && (fi.LenOff >= 0 || fi.Alg != "") {
+					// computed fields are recomputed concretely from the reference layout (a CRC is an uninterpreted
+					// function in the symbolic run: its model value is not an expectation)
+					j = Judge{Kind: "reencode_frame", Step: 2, ExpectHex: want, Frame: fi}
+				}
 				return &Violation{Detail: what, Model: map[string]any{"input": h.g.Concretize(h.m, val), "reference_hex": want, "engine_wire_hex": hexOf(evalBytes(out, val))},
-					Replay: &ReplayReq{Steps: h.encodeSteps(val), Judge: Judge{Kind: "buf_ne", Step: 2, ExpectHex: want}}}
+					Replay: &ReplayReq{Steps: h.encodeSteps(val), Judge: j}}
 			}
 		}
 		if !c.Prove(fs, "length", Eq(out.Len, refB.Len), mkViol("encoded length differs from the reference layout")) {
